@@ -109,7 +109,7 @@ package hackpadfs
 //@   props C07 C04 C05
 //@   modifies world()
 //@   requires fs != nil
-//@   ensures "gate" [C04 C05] implies(!VP(oldname) || !VP(newname), isLinkError(err) && oldOf(err) == oldname && newOf(err) == newname && errIs(err, ErrInvalid) && world() == old(world()))
+//@   ensures "gate" [C04 C05 C07] implies(!VP(oldname) || !VP(newname), isLinkError(err) && oldOf(err) == oldname && newOf(err) == newname && errIs(err, ErrInvalid) && world() == old(world()))
 //@   ensures "delegates" [C07] implies(VP(oldname) && VP(newname), world() == old(worldAfter("hackpadfs.Rename", fs.rootFS, svOld(fs, oldname), svOld(fs, newname))) &&
 //@                         iff(err == nil, old(svRenErr(fs, oldname, newname)) == nil))
 //@   ensures "caller-names" [C05] implies(VP(oldname) && VP(newname) && isLinkError(old(svRenErr(fs, oldname, newname))),
